@@ -209,7 +209,7 @@ func (e *c20Env) makeRun(d *c20Dag, kind string) bool {
 		// the socket answers?
 		loc := filepath.Join(e.env.DAGs, d.ID+".yaml")
 		ok := false
-		for i := 0; i < 200 && !ok; i++ {
+		for dl := time.Now().Add(15 * time.Second); time.Now().Before(dl) && !ok; {
 			if s, err := e.env.Client.GetStatus(loc); err == nil && s.Status != nil && s.Status.Status == dagsched.StatusRunning {
 				ok = true
 				d.heldReq = s.Status.RequestID
